@@ -222,11 +222,10 @@ extern "C" int harness_main() {
   }
 #else
   // the process dies right after the die_at-th persistence event of this invocation (0 = before the first)
-  g_persist_events = 0; g_die_at = verif_nondet("die_after_event", 0, VERIF_MAX_EVENTS);
-  long before = verif_vfs_events();
+  verif_vfs_die_after(verif_nondet("die_after_event", 0, VERIF_MAX_EVENTS));
   InvocationResult r = invoke(o);
-  bool died = g_dead;
-  g_dead = false; g_die_at = -1; verif_vfs_freeze(0);
+  bool died = verif_vfs_frozen() != 0;
+  g_dead = false; verif_vfs_freeze(0);
   g_tree->remove(".ninja_lock");        // whether the lock file survives is immaterial: ninja only touches and stats it
   verif_reach(died ? "died" : "survived");
   verif_obs(died);
